@@ -14,7 +14,7 @@ import (
 func init() {
 	register(&Prop{
 		ID:          "C20",
-		Explanation: "Decides the synchronisation discipline (not the schedules): every access to htpasswdMap.users outside the construction set (functions whose receiver is a fresh, unpublished allocation) happens on paths where the map's rwm is held — read or write lock for loads, write lock for stores — by a must-hold lock walk (Lock/RLock gen, Unlock/RUnlock kill, deferred unlock = held to exit); no map reachable through a published htpasswdMap is updated or deleted from outside the construction set, the reload installs a map built locally by createHtpasswdMap, and Validate answers true only by comparing the presented password with the entry it read from users; the address of UserMap.m flows only into atomic.LoadPointer/StorePointer, the stored pointers are addresses of local maps that receive no update after the store, and readers only index; in both loaders the swap is reachable only on paths where every CSV read returned without error (or io.EOF for incremental reads) and, for htpasswd, createHtpasswdMap returned no error.",
+		Explanation: "Decides the synchronisation discipline (not the schedules): every access to htpasswdMap.users outside the construction set (functions whose receiver is a fresh, unpublished allocation) happens on paths where the map's rwm is held — read or write lock for loads, write lock for stores — by a must-hold lock walk (Lock/RLock gen, Unlock/RUnlock kill, deferred unlock = held to exit); no map reachable through a published htpasswdMap is updated or deleted from outside the construction set, the reload installs a map built locally by createHtpasswdMap, and Validate answers true only by comparing the presented password with the entry it read from users; the address of UserMap.m flows only into atomic.LoadPointer/StorePointer, the stored pointers are addresses of local maps that receive no update after the store, and readers only index; in both loaders the swap is reachable only on paths where every CSV read returned without error (or io.EOF for incremental reads) and, for htpasswd, createHtpasswdMap returned no error. Added during the build: reloads are totally ordered and none is skipped — the watcher package starts exactly one goroutine, file events are received at one site, every received event goes to filterEvent, filterEvent is driven only from the event loop and calls action() synchronously for every selected event (R5, partly shared with C08.R6).",
 		NotDecided:  "interleavings themselves (this is the necessary discipline a race detector would sample); fsnotify event semantics and file-system atomicity of rewrites.",
 		Run:         runC20,
 	})
@@ -77,6 +77,7 @@ func runC20(c *Ctx) {
 	r.Rule("R1-lock-discipline", "every shared access to htpasswdMap.users holds rwm (write lock for stores)", 8)
 	r.Rule("R2-immutable-after-publish", "no map mutation through a published htpasswdMap; reload installs a locally built map; Validate compares against the entry it read", 3)
 	r.Rule("R3-atomic-discipline", "UserMap.m only through atomic.LoadPointer/StorePointer; stored maps are not updated afterwards; readers only index", 6)
+	r.Rule("R5-serial-reloads", "reloads are totally ordered and none is skipped: one goroutine, one receive site for watcher events, every received event handed to filterEvent, action() called synchronously; every selected event reloads (shared with C08.R6)", 5)
 	r.Rule("R4-failed-parse-keeps-old", "the swap is reachable only after error-free parsing", 2)
 
 	usersF := c.Field("R1-lock-discipline", "pkg/authentication/basic.htpasswdMap.users")
@@ -243,7 +244,6 @@ func runC20(c *Ctx) {
 	// ---- R2 ---------------------------------------------------------------------------------
 	rule = "R2-immutable-after-publish"
 	create := c.Fn(rule, "pkg/authentication/basic.createHtpasswdMap")
-	validate := c.Fn(rule, "(*pkg/authentication/basic.htpasswdMap).Validate")
 	for _, fn := range c.P.ModFns {
 		if prog.Short(prog.FnPkg(fn).Path()) != "pkg/authentication/basic" {
 			continue
@@ -308,44 +308,8 @@ func runC20(c *Ctx) {
 			}
 		}
 	}
-	if validate != nil {
-		c.Walk(rule, validate, func(p *walk.Path) {
-			rv, ok := p.ReturnDV(0)
-			if !ok {
-				return
-			}
-			if b, k := p.Truth(rv, p.End()); k && !b {
-				return
-			}
-			key := "true-return|" + fnKey(validate)
-			// the entry: comma-ok lookup in h.users with the user parameter, exists==true
-			entryOK := lookupHit(p, p.End(), func(m walk.DV) bool { return walk.IsFieldLoad(p.Resolve(m).V, usersF) }, func(k walk.DV) bool { return p.Resolve(k).V == validate.Params[1] })
-			if !entryOK {
-				c.bad(rule, key, p.Exit, "Validate can answer true without having found the user in the current users map", p, p.End())
-				return
-			}
-			// the verdict is a comparison result: BinOp == (sha1) or (bcrypt compare == nil)
-			r := p.Resolve(rv)
-			okVerdict := false
-			if b, ok := r.V.(*ssa.BinOp); ok && b.Op == token.EQL {
-				okVerdict = true
-			}
-			if !okVerdict {
-				for _, cl := range p.Calls() {
-					if sc := cl.C.StaticCallee(); sc != nil && sc.Name() == "CompareHashAndPassword" {
-						if n, k := p.ResultNil(cl.DV(), -1, p.End()); k && n {
-							okVerdict = true
-						}
-					}
-				}
-			}
-			if okVerdict {
-				c.ok(rule, key, p.Exit, "user found in the current map and the password comparison against that entry succeeded")
-			} else {
-				c.bad(rule, key, p.Exit, "Validate can answer true without comparing the password against the entry it read from the current users map", p, p.End())
-			}
-		})
-	}
+	checkHtpasswdValidate(c, rule)
+	runC20R5(c, "R5-serial-reloads")
 
 	// ---- R3 ---------------------------------------------------------------------------------
 	rule = "R3-atomic-discipline"
@@ -532,4 +496,177 @@ func (c *Ctx) checkLoadedMapReadOnly(rule string, fn *ssa.Function, load *ssa.Ca
 	} else {
 		c.bad(rule, key, load, "a reader does more than index the atomically loaded map", nil, 0)
 	}
+}
+
+// checkHtpasswdValidate: the htpasswd validator answers true only by comparing against the entry it read (C20.R2, also C01).
+func checkHtpasswdValidate(c *Ctx, rule string) {
+	validate := c.Fn(rule, "(*pkg/authentication/basic.htpasswdMap).Validate")
+	usersF := c.Field(rule, "pkg/authentication/basic.htpasswdMap.users")
+	if usersF == nil {
+		return
+	}
+	if validate != nil {
+		c.Walk(rule, validate, func(p *walk.Path) {
+			rv, ok := p.ReturnDV(0)
+			if !ok {
+				return
+			}
+			if b, k := p.Truth(rv, p.End()); k && !b {
+				return
+			}
+			key := "true-return|" + fnKey(validate)
+			// the entry: comma-ok lookup in h.users with the user parameter, exists==true
+			entryOK := lookupHit(p, p.End(), func(m walk.DV) bool { return walk.IsFieldLoad(p.Resolve(m).V, usersF) }, func(k walk.DV) bool { return p.Resolve(k).V == validate.Params[1] })
+			if !entryOK {
+				c.bad(rule, key, p.Exit, "Validate can answer true without having found the user in the current users map", p, p.End())
+				return
+			}
+			// the verdict is a comparison result: BinOp == (sha1) or (bcrypt compare == nil)
+			r := p.Resolve(rv)
+			okVerdict := false
+			if b, ok := r.V.(*ssa.BinOp); ok && b.Op == token.EQL {
+				okVerdict = true
+			}
+			if !okVerdict {
+				for _, cl := range p.Calls() {
+					if sc := cl.C.StaticCallee(); sc != nil && sc.Name() == "CompareHashAndPassword" {
+						if n, k := p.ResultNil(cl.DV(), -1, p.End()); k && n {
+							okVerdict = true
+						}
+					}
+				}
+			}
+			if okVerdict {
+				c.ok(rule, key, p.Exit, "user found in the current map and the password comparison against that entry succeeded")
+			} else {
+				c.bad(rule, key, p.Exit, "Validate can answer true without comparing the password against the entry it read from the current users map", p, p.End())
+			}
+		})
+	}
+
+}
+
+// runC20R5: the watcher delivers every change, in order, on one goroutine.
+func runC20R5(c *Ctx, rule string) {
+	watch := c.Fn(rule, "pkg/watcher.WatchFileForUpdates")
+	loop := c.Fn(rule, "pkg/watcher.WatchFileForUpdates$1")
+	filter := c.Fn(rule, "pkg/watcher.filterEvent")
+	eventsF := c.P.Field("github.com/fsnotify/fsnotify.Watcher.Events")
+	if eventsF == nil {
+		c.R.Unknown(rule, "anchor:fsnotify.Watcher.Events", "-", "field not found")
+	}
+	if watch == nil || loop == nil || filter == nil || eventsF == nil {
+		return
+	}
+	// (a) goroutines: the event loop is the only one started in the package
+	var wfns []*ssa.Function
+	for _, fn := range c.P.ModFns {
+		if prog.Short(prog.FnPkg(fn).Path()) == "pkg/watcher" {
+			wfns = append(wfns, fn)
+		}
+	}
+	for _, fn := range wfns {
+		for _, b := range fn.Blocks {
+			for _, in := range b.Instrs {
+				g, ok := in.(*ssa.Go)
+				if !ok {
+					continue
+				}
+				key := "goroutine|" + fnKey(fn)
+				target := ssa.Value(g.Call.Value)
+				if mc, ok := target.(*ssa.MakeClosure); ok {
+					target = mc.Fn
+				}
+				if fn == watch && target == ssa.Value(loop) {
+					c.ok(rule, key, in, "the single event-loop goroutine")
+				} else {
+					c.R.Bad(rule, key, c.pos(in), "the watcher starts another goroutine: reloads are no longer totally ordered, an older file version can be published after a newer one", nil, nil)
+				}
+			}
+		}
+	}
+	// (b) one receive site for watcher.Events, in the loop, and its value reaches filterEvent
+	for _, fn := range wfns {
+		for _, b := range fn.Blocks {
+			for _, in := range b.Instrs {
+				var chans []ssa.Value
+				switch v := in.(type) {
+				case *ssa.Select:
+					for _, st := range v.States {
+						if st.Dir == types.RecvOnly {
+							chans = append(chans, st.Chan)
+						}
+					}
+				case *ssa.UnOp:
+					if v.Op == token.ARROW {
+						chans = append(chans, v.X)
+					}
+				}
+				for _, ch := range chans {
+					ld, ok := unwrap(ch).(*ssa.UnOp)
+					if !ok {
+						continue
+					}
+					fa, ok := ld.X.(*ssa.FieldAddr)
+					if !ok || fieldOfAddr(fa) != eventsF {
+						continue
+					}
+					key := "receive-site|" + fnKey(fn)
+					if fn != loop {
+						c.R.Bad(rule, key, c.pos(in), "file events are also received outside the event loop: an event taken here is never turned into a reload, so a change can be skipped", nil, nil)
+						continue
+					}
+					// the received event is passed to filterEvent in the same function
+					inV, _ := in.(ssa.Value)
+					passes := false
+					for _, b2 := range fn.Blocks {
+						for _, in2 := range b2.Instrs {
+							if call, ok := in2.(*ssa.Call); ok && call.Call.StaticCallee() == filter {
+								if ta, ok := unwrap(call.Call.Args[1]).(*ssa.TypeAssert); ok {
+									if ex, ok := ta.X.(*ssa.Extract); ok && ex.Tuple == inV {
+										passes = true
+									}
+								} else if ex, ok := unwrap(call.Call.Args[1]).(*ssa.Extract); ok && ex.Tuple == inV {
+									passes = true
+								} else if call.Call.Args[1] == inV {
+									passes = true
+								}
+							}
+						}
+					}
+					if passes {
+						c.ok(rule, key, in, "the only receive site; the event goes to filterEvent")
+					} else {
+						c.R.Bad(rule, key, c.pos(in), "a received file event is not handed to filterEvent", nil, nil)
+					}
+				}
+			}
+		}
+	}
+	// (c) in the loop, nothing but filterEvent consumes events between two receives: filterEvent is called exactly at one site
+	n := 0
+	for _, ci := range c.callersOf(filter) {
+		n++
+		key := "filter-caller|" + fnKey(ci.Parent())
+		if ci.Parent() == loop {
+			c.ok(rule, key, ci, "called from the event loop")
+		} else {
+			c.R.Bad(rule, key, c.pos(ci), "filterEvent is driven from outside the event loop", nil, nil)
+		}
+	}
+	if n == 0 {
+		c.R.Unknown(rule, "filter-caller|none", "-", "filterEvent has no caller")
+	}
+	runWatcherReloadRule(c, rule)
+}
+
+func fieldOfAddr(fa *ssa.FieldAddr) *types.Var {
+	t := fa.X.Type().Underlying()
+	if pt, ok := t.(*types.Pointer); ok {
+		t = pt.Elem().Underlying()
+	}
+	if st, ok := t.(*types.Struct); ok {
+		return st.Field(fa.Field)
+	}
+	return nil
 }
